@@ -79,6 +79,10 @@ var logCmd = &cobra.Command{
 			return fmt.Errorf("fatal: your current branch 'main' does not have any commits yet")
 		}
 
+		if client.Head.Commit == nil {
+			return ErrInvalidHEAD
+		}
+
 		// print log
 		if err := walkHistory(client.RootGoitPath, client.Head.Commit.Hash, func(commit *object.Commit) error {
 			fmt.Println(commit)
